@@ -85,10 +85,13 @@ def matrix():
     `detection` block of its meta.json."""
     import glob
     base = "/verif/seeded"
+    only_round = int(sys.argv[2]) if len(sys.argv) > 2 else None
     for d in sorted(glob.glob(base + "/*/")):
         patch = d + "patch.diff"
         meta_p = d + "meta.json"
         if not os.path.exists(patch):
+            continue
+        if only_round is not None and json.load(open(meta_p)).get("round") != only_round:
             continue
         r = subprocess.run([sys.executable, __file__, "try", patch], capture_output=True, text=True)
         try:
@@ -99,7 +102,7 @@ def matrix():
         meta = json.load(open(meta_p))
         viol = sorted(p for p, x in res.items() if x.get("rc") == 1)
         err = sorted(p for p, x in res.items() if x.get("rc") == 2)
-        meta["detection"].update({"violation_reported_by": viol, "analysis_error_in": err,
+        meta.setdefault("detection", {}).update({"violation_reported_by": viol, "analysis_error_in": err,
                                   "first_report": {p: (x["first"][0] if x.get("first") else "") for p, x in res.items() if x.get("rc") == 1},
                                   "caught_by_own_property_check": meta["property"] in viol})
         json.dump(meta, open(meta_p, "w"), indent=1)
